@@ -41,3 +41,5 @@ s_harness! { fn c13_twice() { shape_11::<{ CHK_SIZES | CHK_READS }>() } }
 s_harness! { fn c01_bigentry() { shape_12() } }
 // C01/C05: three live keys, merge rolling over into three output files, restart
 s_harness! { fn c01_merge3() { shape_13() } }
+// C02: reopening any number of times without writing changes nothing
+s_harness! { fn c02_reopen3() { shape_14() } }
